@@ -917,3 +917,61 @@ Example template_fill_examples :
   TemplateFillProofs.regex_fill_seq "string" "a{id}b" TemplateFillProofs.groups "1"
     = TemplateFillProofs.regex_fill_text "string" "a1b" TemplateFillProofs.groups "1".
 Proof. split; [exact (proj2 (proj2 (proj2 (proj2 TemplateFillProofs.successive_fill_example))))|exact TemplateFillProofs.successive_fill_changes_values]. Qed.
+
+(* ---- round 8: the numeric verb inside the model of package fmt.
+   model/GoFmtInt.v = GoFmt.v (fmt's doPrintf, flag-free formats) with operands that are strings OR integers: %d / %v of an integer is
+   strconv's decimal text (dec), %d of a string and %s of an integer are fmt's bad-verb notation, %b %o %c %U ...: None.  Tied to the
+   real fmt.Sprintf on generated formats with mixed operands (harness sqlinject) and on EVERY constant format of the repository's own
+   Sprintf sites (census, operands of the kinds the sites have).  Until round 7 the %d sites rested on go/types + numeric_sites_safe:
+   that fmt prints a text over the numeric alphabet for an integer was taken for granted. *)
+From Qryn Require model.GoFmtInt proofs.GoFmtIntProofs.
+
+(* the round-5 model is the string-operand part of this one *)
+Theorem fmt_model_with_integers_extends_the_string_model : forall f args,
+  GoFmtInt.fmt_go2 f (map GoFmtInt.OStr args) = GoFmt.fmt_go f args.
+Proof. exact GoFmtIntProofs.fmt_go2_refines_fmt_go. Qed.
+Print Assumptions fmt_model_with_integers_extends_the_string_model.
+
+(* the census's reading of a constant format with string AND numeric verbs, for all texts without a percent sign and all operands
+   (each under the verb its kind calls for): fmt prints the concatenation, an integer as its decimal text *)
+Theorem constant_format_with_numeric_verbs_is_concatenation : forall texts ops,
+  forallb GoFmt.pct_free texts = true -> S (List.length ops) = List.length texts ->
+  GoFmtInt.fmt_go2 (GoFmtInt.mkformat2 texts ops) ops = Some (GoFmt.interleave texts (map GoFmtInt.show ops)).
+Proof. exact GoFmtIntProofs.fmt2_constant_format. Qed.
+Print Assumptions constant_format_with_numeric_verbs_is_concatenation.
+
+(* for EVERY integer (any Go integer type) %d prints a text over "-0123456789" between the two constant texts ... *)
+Theorem numeric_verb_prints_a_number : forall pre post ty z, GoFmt.pct_free pre = true -> GoFmt.pct_free post = true ->
+  GoFmtInt.fmt_go2 (pre ++ "%d" ++ post) [GoFmtInt.OInt ty z] = Some (pre ++ GoFmtInt.dec z ++ post) /\
+  over GoFmtInt.dec_alphabet (GoFmtInt.dec z) = true.
+Proof. exact GoFmtIntProofs.numeric_site_prints_a_number. Qed.
+Print Assumptions numeric_verb_prints_a_number.
+
+(* ... which the escaper copies unchanged and which, inside a literal, stays inside it (the hypothesis of numeric_sites_safe,
+   discharged for what fmt prints) *)
+Theorem printed_integer_is_harmless : forall z acc,
+  esc (GoFmtInt.dec z) = GoFmtInt.dec z /\ after (QStr acc) (GoFmtInt.dec z) = QStr (acc ++ GoFmtInt.dec z) /\ outs (QStr acc) (GoFmtInt.dec z) = [].
+Proof. exact GoFmtIntProofs.dec_is_harmless. Qed.
+Print Assumptions printed_integer_is_harmless.
+
+(* why go/types has to prove the operand an integer: a STRING under %d is printed with all its bytes outside any literal
+   (for every string), and the request decides whether the statement still lexes *)
+Theorem numeric_verb_over_a_string_prints_its_bytes : forall pre post s, GoFmt.pct_free pre = true -> GoFmt.pct_free post = true ->
+  GoFmtInt.fmt_go2 (pre ++ "%d" ++ post) [GoFmtInt.OStr s] = Some (pre ++ "%!d(string=" ++ s ++ ")" ++ post).
+Proof. exact GoFmtIntProofs.numeric_verb_over_string_operand. Qed.
+Print Assumptions numeric_verb_over_a_string_prints_its_bytes.
+
+Theorem numeric_verb_over_a_string_refuted :
+  exists s out, GoFmtInt.fmt_go2 "SELECT 1 LIMIT %d" [GoFmtInt.OStr s] = Some out /\ has_err (lex out) = true /\
+    forall ty z, exists out', GoFmtInt.fmt_go2 "SELECT 1 LIMIT %d" [GoFmtInt.OInt ty z] = Some out' /\ out' = "SELECT 1 LIMIT " ++ GoFmtInt.dec z.
+Proof. exact GoFmtIntProofs.numeric_verb_over_string_operand_refuted. Qed.
+Print Assumptions numeric_verb_over_a_string_refuted.
+
+(* hypotheses met by real values: a format with three verbs, the extreme int64, operands under the wrong verbs *)
+Example numeric_verb_examples :
+  GoFmtInt.fmt_go2 (GoFmtInt.mkformat2 ["toDateTime("; ") AND val == "; " LIMIT "; ""]
+                      [GoFmtInt.OInt "int64" (-1700000000); GoFmtInt.OStr "'x'"; GoFmtInt.OInt "int" 100])
+          [GoFmtInt.OInt "int64" (-1700000000); GoFmtInt.OStr "'x'"; GoFmtInt.OInt "int" 100] = Some "toDateTime(-1700000000) AND val == 'x' LIMIT 100" /\
+  GoFmtInt.dec 0 = "0" /\ GoFmtInt.dec (-9223372036854775808) = "-9223372036854775808" /\
+  GoFmtInt.fmt_go2 "%s|%d|%v" [GoFmtInt.OInt "int" 5; GoFmtInt.OStr "a"; GoFmtInt.OInt "int64" 7; GoFmtInt.OStr "b"] = Some "%!s(int=5)|%!d(string=a)|7%!(EXTRA string=b)".
+Proof. exact GoFmtIntProofs.fmt2_examples. Qed.
